@@ -133,6 +133,16 @@ func (vc *VC) setupAndRun() *Exec {
 			ex.ghostArgs[g.Name] = TV{T: n, Ty: vt}
 		}
 		ex.bindParams(ev)
+		for _, g := range spec.Ghosts {
+			if g.Init != nil {
+				iv := ev.rval(ev.eval(g.Init))
+				ex.set(st, "G:"+g.Name, vc.vtSort(vc.ghostSort[g.Name]), iv.T)
+			}
+		}
+		for _, ax := range vc.w.Contracts.axiomsFor(spec) {
+			vc.assume(ev.evalBool(ax.Body))
+			vc.axiomsUsed = append(vc.axiomsUsed, ax.Name)
+		}
 		for _, r := range spec.Requires {
 			vc.assume(ev.evalBool(r.Expr))
 		}
@@ -235,12 +245,10 @@ func (vc *VC) finish(ex *Exec) {
 	for k, a := range spec.Asserts {
 		t := mkEval().evalBool(a.Expr)
 		vc.oblige(fmt.Sprintf("assert[%d]", k+1), a.Tag, vc.fn.Pos(), exitReach, t, "hint: "+a.Text)
-		vc.assume(sImp(exitReach, t))
 	}
 	for k, e := range spec.Ensures {
 		t := mkEval().evalBool(e.Expr)
 		vc.oblige(fmt.Sprintf("ensures[%d]", k+1), e.Tag, vc.fn.Pos(), exitReach, t, "postcondition: "+e.Text)
-		vc.assume(sImp(exitReach, t))
 	}
 	// frame: every heap component written anywhere in the function
 	for _, key := range sortedKeys(ex.allWrites) {
